@@ -855,6 +855,20 @@ class Subject:
                 ks = diff_keys(a, b)
                 self.violate("C16", "inspected-run-differs-from-uninspected-run", fields=ks,
                              first=first_diff(b, a, ks[0]), note="expected = never inspected, got = inspected")
+        if "C09" in self.props and isa == "riscv" and self.settings["dc"]["enable"]:
+            # uncounted (inspection) reads leave the accounting untouched: the simulation that is looked at after
+            # every event has the data-cache counters and the cycle counter of the shadow that is never looked at
+            try:
+                m, n = self.sut.state.memory, self.s16.state.memory
+                ca = [m.hits, m.accesses, bool(m.last_was_hit), self.sut.state.performance_metrics.cycles]
+                cb = [n.hits, n.accesses, bool(n.last_was_hit), self.s16.state.performance_metrics.cycles]
+            except Exception:  # noqa: BLE001
+                ca = cb = None
+            if ca != cb:
+                self.violate("C09", "inspection-changed-cache-accounting", expected=cb, got=ca,
+                             note="[hits, accesses, last hit, cycles]; expected = never inspected, got = inspected between steps")
+            elif ca is not None and ca[1] > 0:
+                self.res.probes["data-cache accounting of the inspected run equals the uninspected run"] += 1
         if "C13" in self.props:
             a2 = strip_wall(dict(a))
             if self.s13 is not None and not self.reloaded_started:
